@@ -717,7 +717,7 @@ func checkC18(args []string) int {
 	fullCap := 1000000
 	twiseCap, bigCap := 350000, 200000
 	if thorough {
-		twiseCap, bigCap = 1500000, 400000
+		twiseCap, bigCap = 1000000, 300000
 	}
 	if c := vkArgInt(args, "cap", 0); c > 0 {
 		twiseCap, bigCap = c, c
@@ -930,6 +930,7 @@ func checkC18(args []string) int {
 	if len(abandoned) > 0 {
 		run.Cov["types_abandoned_after_failures"] = abandoned
 	}
+	run.Cov["exhaustive_scope"] = fmt.Sprintf("the enumeration defined in rule was completed: complete field-domain product for %d types, complete t-wise design (every t-subset x both baselines) for %d types whose product exceeds the cap, every stream spec, every value pair; it is not the complete product for the t-wise types", fullTypes, twiseTypes)
 	run.Cov["per_type"] = per
 	run.Cov["types"] = len(typeNames)
 	run.Cov["types_full_product"] = fullTypes
@@ -987,7 +988,6 @@ func c18RunReplay(file string, args []string) int {
 	var found []string
 	switch rep.Kind {
 	case "codec":
-		thorough := rep.Tier == "thorough" || art.Tier == "thorough" || vkTier(args) == "thorough"
 		var t *c18Type
 		for _, c := range c18Types(true) {
 			if c.name == rep.Type {
@@ -1004,7 +1004,6 @@ func c18RunReplay(file string, args []string) int {
 				return 2
 			}
 		}
-		_ = thorough
 		ev := c18NewEvaluator(t)
 		fmt.Printf("replaying %s %v\n", t.name, t.describe(rep.Choice))
 		enc, _, fails := ev.roundtrip(rep.Choice, nil, nil)
@@ -1012,7 +1011,7 @@ func c18RunReplay(file string, args []string) int {
 		for _, f := range fails {
 			found = append(found, fmt.Sprintf("%s:%s:%s — %s", t.name, f.oracle, t.witness(rep.Choice), f.detail))
 		}
-		if enc != nil {
+		if enc != nil && len(fails) == 0 { // a broken encoding is not fed to the decoders again
 			if pf := ev.prefixes(rep.Choice, enc, nil, true); pf != nil {
 				found = append(found, fmt.Sprintf("%s:%s:%s — %s", t.name, pf.oracle, t.witness(rep.Choice), pf.detail))
 			}
